@@ -11,6 +11,7 @@ import (
 
 	"verif/sim/store"
 	"verif/sim/tape"
+	"verif/sim/world"
 )
 
 // Tier selects budgets.
@@ -208,6 +209,16 @@ func fragFn(seed uint64, mode int) func(int) int {
 			return rem
 		}
 	}
+}
+
+// newWorld builds the link system of a run. withNodeReifier selects the
+// configuration in which LinkSystem.NodeReifier is unixfsnode.Reify (every
+// Load returns a lazily reified node), as boxo's gateway back-ends do.
+func newWorld(st *store.Store, trusted, withNodeReifier bool) *world.World {
+	if withNodeReifier {
+		return world.NewWithNodeReifier(st, trusted)
+	}
+	return world.New(st, trusted)
 }
 
 func min(a, b int) int {
